@@ -1,4 +1,4 @@
-// C05 — target merge_iters: Rec8, stable entry points, all (input iterator kind, output iterator kind) pairs, owning comparator
+// C05 — target merge_iters: Rec8, stable entry points, (input iterator kind, output iterator kind) pairs 0..3, owning comparator
 #include "C05_merge.hpp"
 
 namespace c05 {
